@@ -209,6 +209,20 @@ def choices_layout(case: dict):
 # ----------------------------------------------------------------------------- observation
 
 
+def _text(el) -> str:
+    """text content with every <output value=" /path/to/name "/> written back as ${name} (the reference as typed)"""
+    out = [el.text or ""]
+    for ch in el:
+        if ch.tag == XF + "output":
+            out.append("${" + (ch.get("value") or "").strip().rsplit("/", 1)[-1] + "}")
+        else:
+            out.append(_text(ch))
+        out.append(ch.tail or "")
+    r = "".join(out)
+    # the DOM writer pads mixed content (text + <output>) with one leading and one trailing space (C15's subject)
+    return r.strip(" ") if len(el) else r
+
+
 def _resolve(ref: str):
     if ref.startswith("jr:itext('") and ref.endswith("')"):
         return ref[len("jr:itext('"):-2]
@@ -238,7 +252,7 @@ def observe(xform: str, case: dict) -> dict:
                 forms = {}
                 for v in tx.findall("x:value", NS):
                     f = v.get("form") or "long"
-                    forms.setdefault(f, []).append("".join(v.itertext()))
+                    forms.setdefault(f, []).append(_text(v))
                 table.setdefault(tx.get("id"), []).append(forms)
             tr[lang] = table
     view_langs = langs if langs else [""]
@@ -295,7 +309,7 @@ def observe(xform: str, case: dict) -> dict:
                         for m in MEDIA_KINDS:
                             put(key, m, lang, via(rid, None, m, lang))
                 else:
-                    put(key, "label", lang, "".join(lab.itertext()) or None)
+                    put(key, "label", lang, _text(lab) or None)
             if hin is not None:
                 if hin.get("ref"):
                     rid = _resolve(hin.get("ref"))
@@ -305,7 +319,7 @@ def observe(xform: str, case: dict) -> dict:
                         put(key, "hint", lang, via(rid, None, "long", lang))
                         put(key, "guidance_hint", lang, via(rid, None, "guidance", lang))
                 else:
-                    put(key, "hint", lang, "".join(hin.itertext()) or None)
+                    put(key, "hint", lang, _text(hin) or None)
             if b is not None:
                 for kind, attr in (("constraint_message", JR + "constraintMsg"), ("required_message", JR + "requiredMsg")):
                     v = b.get(attr)
@@ -354,7 +368,7 @@ def observe(xform: str, case: dict) -> dict:
                         if rid is None:
                             inline = "<odd-ref:%s>" % lab.get("ref")
                     elif lab is not None:
-                        inline = "".join(lab.itertext()) or None
+                        inline = _text(lab) or None
             if not have:
                 continue
             for lang in view_langs:
@@ -446,7 +460,8 @@ def py_spec(case: dict, strict_langs: bool = True) -> dict:
             elif k == "hint":
                 p[k] = ("itext", lang_map(ck)) if (ck["s"] or has_guid) else ("inline", ck["u"])
             else:
-                p[k] = ("itext", lang_map(ck)) if ck["s"] else ("inline", ck["u"])
+                has_ref = ck["u"] is not None and any("}" in part.split("\n")[0] for part in ck["u"].split("${")[1:])
+                p[k] = ("itext", lang_map(ck)) if (ck["s"] or has_ref) else ("inline", ck["u"])
         if etype == "g" and "label" not in p:
             p = {}  # a group shows its media through its label
         plan[key] = p
@@ -609,6 +624,15 @@ def random_form(rng, big=False) -> dict:
         else:
             e["qtype"] = rng.choice(["text", "integer", "note", "text"])
         elems.append(e)
+    # ${references} to other questions inside texts of questions (they need <output>; a message with one goes to itext)
+    qnames = [e["name"] for e in elems if e["etype"] in ("q", "sel")]
+    if qnames and rng.random() < 0.4:
+        for e in elems:
+            if e["etype"] == "g":
+                continue
+            for (k, lang) in list(e["cells"]):
+                if k in TEXT_KINDS and rng.random() < (0.5 if k.endswith("message") else 0.15):
+                    e["cells"][(k, lang)] += " ${%s}" % rng.choice(qnames)
     if elems[-1]["etype"] == "g":
         elems.append({"etype": "q", "name": "inner", "parent": elems[-1]["name"], "qtype": "text",
                       "cells": {("label", None): marker("S", 9, "label", None)}})
@@ -790,3 +814,22 @@ def unlabelled_family():
                 e["appearance"] = "search('crops')"
             choices = [{"list": "l0", "name": f"o{i}", "cells": shapes[sh](i)} for i, sh in enumerate(combo)]
             yield {"style": "::", "elems": [e], "choices": choices}
+
+
+def ref_message_family():
+    """Directed family: bind messages with a ${reference} (they live in itext, filed under the *form's* default language when
+    unsuffixed) x message kind x {unsuffixed only, fr only, unsuffixed + fr} x default language {none, setting, argument,
+    unused language} x a translated or untranslated label next to it."""
+    for kind in ("constraint_message", "required_message"):
+        for cols in ((None,), ("fr",), (None, "fr")):
+            for dl in (None, ("s", "fr"), ("a", "de"), ("s", "xx")):
+                for lab in ((None,), (None, "de")):
+                    cells = {("label", l): marker("S", 0, "label", l) for l in lab}
+                    for c in cols:
+                        cells[(kind, c)] = marker("S", 0, kind, c) + " ${q1}"
+                    elems = [{"etype": "q", "name": "q0", "parent": None, "qtype": "integer", "cells": cells},
+                             {"etype": "q", "name": "q1", "parent": None, "qtype": "text", "cells": {("label", None): "QL1"}}]
+                    form = {"style": "::", "elems": elems, "choices": []}
+                    if dl:
+                        form["dl_setting" if dl[0] == "s" else "dl_arg"] = dl[1]
+                    yield form
